@@ -924,6 +924,74 @@ def case_user_classes(ctx, rseed, count):
             judge_formula(ctx, F, r, tmp, 5000 + serial, None if serial % 4 == 0 else 7, origin)
 
 
+class _Reentrant(io.StringIO):
+    """A text stream whose first write renders another formula (into a stream of its own) before it goes on."""
+    def __init__(self, inner):
+        io.StringIO.__init__(self)
+        self.inner, self.fired = inner, False
+
+    def write(self, text):
+        if not self.fired:
+            self.fired = True
+            self.inner()
+        return io.StringIO.write(self, text)
+
+
+class _Failing(io.StringIO):
+    """A destination that accepts a number of writes and then fails, as a full disk or a closed pipe does."""
+    def __init__(self, writes):
+        io.StringIO.__init__(self)
+        self.left = writes
+
+    def write(self, text):
+        if self.left <= 0:
+            raise OSError(28, "No space left on device")
+        self.left -= 1
+        return io.StringIO.write(self, text)
+
+
+def case_interrupted_and_nested(ctx, rseed, count):
+    """(a) an export that fails because of its destination (closed stream, stream that fails after a few writes) followed by
+    an ordinary export of another formula; (b) an export during which another formula is exported (the stream's write
+    method does it): every text must be the rendering of its own formula."""
+    r = ctx.rng("c12nest", rseed)
+    with TempDir() as tmp:
+        for serial in range(count):
+            clsname = r.choice(["CNF", "OPB"])
+            A = random_cnf(r, clsname, "small") if clsname == "CNF" else random_opb(r, clsname, "small")
+            B = random_cnf(r, "CNF", "any") if r.random() < 0.5 else random_opb(r, "OPB", "any")
+            memA, memB = Memory(A), Memory(B)
+            if not (memA.ok and memB.ok):
+                continue
+            fmt = r.choice(["opb", "opb", "latex"])
+            # (a) failed exports of A first
+            for writes in (0, 1, 2, 5, 40):
+                ctx.call(A.to_file, _Failing(writes), fmt)
+            closed = io.StringIO()
+            closed.close()
+            ctx.call(A.to_file, closed, fmt)
+            ctx.count("exports_interrupted_by_their_destination", 6)
+            judge_formula(ctx, B, r, tmp, 7000 + serial, 6, "after interrupted exports of another formula")
+            # (b) nested export
+            fmt2 = r.choice(["opb", "latex"])
+            inner_buf = io.StringIO()
+            outer = _Reentrant(lambda: B.to_file(inner_buf, fmt2))
+            st, val = ctx.call(A.to_file, outer, fmt)
+            ctx.count("nested_exports")
+            if st == "exc":
+                ctx.violation("render:%s:%s:raises:%s" % (fmt, memA.kind.upper(), type(val).__name__),
+                              "export of a formula during which another one is exported raised %r" % (val,))
+                continue
+            for F_, mem_, text_, f_ in ((A, memA, outer.getvalue(), fmt), (B, memB, inner_buf.getvalue(), fmt2)):
+                label = "%s to_file(%s) %s another export" % (mem_.cls, f_, "interrupted by" if F_ is A else "run inside")
+                if f_ == "opb":
+                    judge_opb(ctx, F_, mem_, text_, label, True, False)
+                else:
+                    judge_latex(ctx, F_, mem_, text_, label, "document")
+            ctx.judged(("nested", memA.digest(A), memB.digest(B), fmt, fmt2), nontrivial=memA.has_literal() or memB.has_literal(),
+                       sample={"outer": [memA.cls, fmt], "inner": [memB.cls, fmt2]})
+
+
 def case_block_sizes(ctx, cls, sizes):
     """Formulas whose number of rows is a power of two or a small multiple of one (writers that buffer their output
     work in blocks of such sizes), and their neighbours."""
@@ -1071,6 +1139,7 @@ def workload(tier, seed):
             yield "shield", {"cls": cls, "where": where}
     for b in range(3 if quick else 40):
         yield "user_classes", {"rseed": seed * 100 + b, "count": 30}
+        yield "interrupted_and_nested", {"rseed": seed * 100 + b, "count": 25}
     for cls in ("CNF", "OPB"):
         yield "long_lines", {"cls": cls}
         yield "header_values", {"cls": cls}
